@@ -263,14 +263,19 @@ SIGNERS = [['none'], ['none'], ['digest', 0], ['digest', 1], ['hmac'], ['ec256']
 COMP_TYPES = [8, 8, 8, 1, 32, 50, 52, 54, 56, 58, 252, 253, 65535]
 
 
+def gen_comp(v, t=8):
+    """one encoded name component written from the NDN packet format (the generators never call the library: a
+    defect in Component.from_bytes / Name.* must be a verdict of the check, not a crash of the generator)"""
+    return T.gen_comp(v, t)
+
+
 def rand_comp(rng, allow_digest=False):
-    from ndn.encoding import Component
     t = rng.choice(COMP_TYPES + ([2] if allow_digest else []))
     if t == 1 or t == 2:
         v = bytes(rng.getrandbits(8) for _ in range(32))
     else:
         v = bytes(rng.getrandbits(8) for _ in range(rng.choice([0, 1, 3, 8, 20])))
-    return bytes(Component.from_bytes(v, t))
+    return gen_comp(v, t)
 
 
 def rand_name(rng):
@@ -282,7 +287,6 @@ def rand_name(rng):
 def boundary_name(rng, big=True):
     """a name whose encoded components total a length near the points where the Name's own Length (with or
     without the 34-byte ParametersSha256Digest component) or an enclosing Length changes form"""
-    from ndn.encoding import Component
     targets = [253 - 34, 253, 253 - 2, 253 - 36]
     if big:
         targets += [65536 - 34, 65536]
@@ -293,8 +297,9 @@ def boundary_name(rng, big=True):
     if rest >= 2:
         # one filler component: header is 2 bytes below 253, 4 bytes from 253 on
         n = rest - 2 if rest - 2 < 253 else rest - 4
-        comps.insert(rng.randint(0, len(comps)), bytes(Component.from_bytes(bytes(rng.getrandbits(8) for _ in range(8)) * (n // 8 + 1), 8))[:0] or
-                     bytes(Component.from_bytes((bytes(rng.getrandbits(8) for _ in range(8)) * (n // 8 + 1))[:max(n, 0)], 8)))
+        at = rng.randint(0, len(comps))
+        bytes(rng.getrandbits(8) for _ in range(8))         # (eight draws kept so that the generated stream stays the same)
+        comps.insert(at, gen_comp((bytes(rng.getrandbits(8) for _ in range(8)) * (n // 8 + 1))[:max(n, 0)], 8))
     return comps
 
 
@@ -332,10 +337,9 @@ INT_EDGES = [0, 1, 255, 256, 65535, 65536, 2 ** 32 - 1, 2 ** 32, 2 ** 63, 2 ** 6
 
 def sized_comp(rng, vlen, typ=None):
     """one component whose Value has exactly vlen bytes (Type 1-byte or 3-byte form)"""
-    from ndn.encoding import Component
     typ = typ or rng.choice([8, 8, 32, 252, 253, 65535])
     blk = bytes(rng.getrandbits(8) for _ in range(16))
-    return bytes(Component.from_bytes((blk * (vlen // 16 + 1))[:vlen], typ))
+    return gen_comp((blk * (vlen // 16 + 1))[:vlen], typ)
 
 
 def near(rng, big_ok):
@@ -451,8 +455,7 @@ def gen_interest_case(rng, tier):
     need = ap is not None or signer[0] != 'none'
     if need and rng.random() < 0.3:
         # caller already put a ParametersSha256Digest component somewhere in the name
-        from ndn.encoding import Component
-        name.insert(rng.randint(0, len(name)), bytes(Component.from_bytes(bytes(32), 2)))
+        name.insert(rng.randint(0, len(name)), gen_comp(bytes(32), 2))
     param = {'can_be_prefix': rng.random() < 0.5, 'must_be_fresh': rng.random() < 0.5,
              'nonce': rng.choice([None, 0, rng.getrandbits(32)]),
              'lifetime': rng.choice([None, 0, 1, 4000, 65535, 65536, 2 ** 40]),
@@ -488,6 +491,123 @@ def gen_interest_case(rng, tier):
         if rng.random() < 0.2:
             c['app'] = 0                                                                            # present but empty
     return c
+
+
+# ------------------------------------------------------------------ packet writers for the GENERATORS
+# Written from the NDN Packet Format 0.3 / NDNLPv2 / NDN Certificate Format 2.0, never with the library: the wires a
+# generator feeds to a check must exist whatever state the library's encoders are in (a defect in make_interest /
+# make_data / Name.* / the signers must be a verdict of the check that judges them, not a crash of somebody's generator).
+def w_tlv(t, v):
+    v = bytes(v)
+    return T.tl(t) + T.tl(len(v)) + v
+
+
+def w_uint(t, n, fixed=None):
+    """a non-negative integer element: the shortest of the widths 1 / 2 / 4 / 8 (or the fixed width of the field)"""
+    w = fixed or (1 if n < 2 ** 8 else 2 if n < 2 ** 16 else 4 if n < 2 ** 32 else 8)
+    return w_tlv(t, n.to_bytes(w, 'big'))
+
+
+def w_name(comps):
+    return w_tlv(7, b''.join(bytes(c) for c in comps))
+
+
+def uri_to_comps(uri):
+    """components of a plain URI such as '/a/b' (generic components of unreserved characters only)"""
+    return [gen_comp(x.encode(), 8) for x in uri.split('/') if x]
+
+
+def w_sig_info(t, sig, extra=b''):
+    """SignatureInfo (t = 0x16) / InterestSignatureInfo (t = 0x2c); sig: {'type': int, 'key_name': [components] | None,
+    'nonce': int | None, 'time': int | None}; extra: elements after them (a certificate's ValidityPeriod)"""
+    body = w_uint(0x1b, sig['type'], 1)
+    if sig.get('key_name') is not None:
+        body += w_tlv(0x1c, w_name(sig['key_name']))
+    if sig.get('nonce') is not None:
+        body += w_uint(0x26, sig['nonce'])
+    if sig.get('time') is not None:
+        body += w_uint(0x28, sig['time'])
+    return w_tlv(t, body + extra)
+
+
+def w_sig_value(sig, covered):
+    """SHA-256 digest (type 0) or HMAC-SHA256 with sig['key'] (type 4) over the covered bytes"""
+    if sig['type'] == 0:
+        return hashlib.sha256(covered).digest()
+    if sig['type'] == 4:
+        import hmac
+        return hmac.new(sig['key'], covered, hashlib.sha256).digest()
+    raise ValueError(sig)
+
+
+def w_meta(meta):
+    """MetaInfo from {'content_type', 'freshness_period', 'final_block_id'} (each may be None / missing)"""
+    body = b''
+    if meta.get('content_type') is not None:
+        body += w_uint(0x18, meta['content_type'])
+    if meta.get('freshness_period') is not None:
+        body += w_uint(0x19, meta['freshness_period'])
+    if meta.get('final_block_id') is not None:
+        body += w_tlv(0x1a, meta['final_block_id'])
+    return w_tlv(0x14, body)
+
+
+def build_data(name, meta=None, content=None, sig=None, sig_extra=b''):
+    """Data = Name [MetaInfo] [Content] [SignatureInfo SignatureValue]; the signature covers Name .. SignatureInfo"""
+    body = w_name(name)
+    if meta is not None:
+        body += w_meta(meta)
+    if content is not None:
+        body += w_tlv(0x15, content)
+    if sig is not None:
+        body += w_sig_info(0x16, sig, sig_extra)
+        body += w_tlv(0x17, w_sig_value(sig, body))
+    return w_tlv(6, body)
+
+
+def build_interest(name, can_be_prefix=False, must_be_fresh=False, forwarding_hint=(), nonce=None, lifetime=4000,
+                   hop_limit=None, app=None, sig=None):
+    """Interest = Name [CanBePrefix] [MustBeFresh] [ForwardingHint] [Nonce] [InterestLifetime] [HopLimit]
+    [ApplicationParameters [InterestSignatureInfo InterestSignatureValue]]. With parameters the name carries one
+    ParametersSha256DigestComponent (in place of the one 02-typed component of `name`, else appended) holding SHA-256 of
+    everything from ApplicationParameters to the end; the signature covers the other name components, the parameters
+    and the signature info. A name with such a component and no parameters, or with two, is refused (ValueError)."""
+    name = [bytes(c) for c in name]
+    if sig is not None and app is None:
+        app = b''
+    pos = [i for i, c in enumerate(name) if c[:1] == b'\x02']
+    if len(pos) > (1 if app is not None else 0):
+        raise ValueError('ParametersSha256DigestComponent out of place')
+    tail = b''
+    if app is not None:
+        tail = w_tlv(0x24, app)
+        if sig is not None:
+            tail += w_sig_info(0x2c, sig)
+            tail += w_tlv(0x2e, w_sig_value(sig, b''.join(c for i, c in enumerate(name) if i not in pos) + tail))
+        dg = gen_comp(hashlib.sha256(tail).digest(), 2)
+        if pos:
+            name[pos[0]] = dg
+        else:
+            name.append(dg)
+    body = w_name(name)
+    if can_be_prefix:
+        body += w_tlv(0x21, b'')
+    if must_be_fresh:
+        body += w_tlv(0x12, b'')
+    if forwarding_hint:
+        body += w_tlv(0x1e, b''.join(w_name(n) for n in forwarding_hint))
+    if nonce is not None:
+        body += w_uint(0x0a, nonce, 4)
+    if lifetime is not None:
+        body += w_uint(0x0c, lifetime)
+    if hop_limit is not None:
+        body += w_uint(0x22, hop_limit, 1)
+    return w_tlv(5, body + tail)
+
+
+def build_nack(interest_wire, reason):
+    """LpPacket { Nack { NackReason } Fragment }"""
+    return w_tlv(0x64, w_tlv(0x320, w_uint(0x321, reason)) + w_tlv(0x50, interest_wire))
 
 
 def payload(case, n):
